@@ -19,7 +19,11 @@
 #define OP_PSPEND 10  // parent.SpendCoin(key)
 #define OP_ACCESS 11  // child.AccessCoin(key)
 #define OP_PSYNC 12   // parent.Sync()
+#define OP_ADDS 13    // like OP_ADD, the coin carries a 40-byte script (heap-allocated prevector: DynamicMemoryUsage() != 0, so the usage accounting is exercised)
+#define OP_ADDOWS 14  // like OP_ADDOW, 40-byte script
+#define SLEN 40
 static ModelCoin bm[NKEYS], pm[NKEYS], cm[NKEYS];   // views of base, parent, child
+static bool g_haslen[NKEYS];   // the child's coin under this key was added with the 40-byte script
 
 static bool same(const std::optional<Coin>& c, const ModelCoin& m)
 {
@@ -49,10 +53,16 @@ static void apply(int op, int k, ModelView& base, CCoinsViewCache& parent, CCoin
 {
     switch (op) {
     case OP_ADD: { const bool ow = cm[k].present; Coin c = fresh_coin(cm[k]); child.AddCoin(KEY(k), std::move(c), ow); break; }
+    case OP_ADDS: case OP_ADDOWS: {
+        const bool ow = op == OP_ADDOWS ? true : cm[k].present; Coin c = fresh_coin(cm[k]);
+        c.out.scriptPubKey.resize(SLEN); c.out.scriptPubKey[0] = 0x51; c.out.scriptPubKey[SLEN - 1] = nondet_u8();
+        VASSERT(c.DynamicMemoryUsage() != 0, "a 40-byte script is heap allocated");
+        child.AddCoin(KEY(k), std::move(c), ow); g_haslen[k] = true; break; }
     case OP_ADDOW: { Coin c = fresh_coin(cm[k]); child.AddCoin(KEY(k), std::move(c), true); break; }
     case OP_SPEND: {
         Coin moved; const bool r = child.SpendCoin(KEY(k), &moved);
         VASSERT(r == cm[k].present, "SpendCoin succeeds iff the coin is unspent in the child's view");
+        if (r && g_haslen[k]) VASSERT(moved.out.scriptPubKey.size() == SLEN && moved.out.scriptPubKey[0] == 0x51, "SpendCoin hands back the script");
         if (r) VASSERT(moved.out.nValue == cm[k].value && moved.nHeight == cm[k].height && (bool)moved.fCoinBase == cm[k].coinbase, "SpendCoin hands back the spent coin");
         cm[k].present = false; break; }
     case OP_GET: { VASSERT(same(child.GetCoin(KEY(k)), cm[k]), "child GetCoin equals the single-map model"); VASSERT(child.HaveCoin(KEY(k)) == cm[k].present, "child HaveCoin equals the model"); break; }
